@@ -5,7 +5,8 @@ import FeatModel.Model.Pool
 
     ops:  new a kind dt it n v | mat a kind dt it r c p v variant | band a dt it r noff v | adopt a b |
           range a b n off | clone a b mode fill | conv a b dt it | xconv a b | move a b | clear a | destroy a |
-          format a v | write a w j i v | lay l a | mlay a l kind dt fill | ldrop l | mk a kind dt it n v | copy a b full | end
+          format a v | write a w j i v | lay l a | mlay a l kind dt fill | ldrop l | mk a kind dt it n v | copy a b full |
+          T2 t <op> <op> (tuple operation = two component operations) | end
 -/
 open FeatModel FeatModel.Proto FeatModel.Pool
 
@@ -125,6 +126,22 @@ partial def go (s : State) (acc : String) (ts : Toks) : String :=
     match finalize s with
     | .ok _ => acc ++ s!" ; END {totalBytes s.pool} {liveChunks s.pool} FIN"
     | .error e => showAbort e
+  | "T2" :: _t :: name1 :: rest =>
+    -- one operation of a real TupleVector<DenseVector, DenseVector>, spelled out as the two component operations it
+    -- must be equivalent to: the model runs exactly these two steps (`run`), one snapshot afterwards
+    match (opP name1) rest with
+    | .error e => s!"BAD-OP {e}"
+    | .ok (op1, rest1) =>
+      match rest1 with
+      | name2 :: rest2 =>
+        match (opP name2) rest2 with
+        | .error e => s!"BAD-OP {e}"
+        | .ok (op2, rest') =>
+          match run s [op1, op2] with
+          | .error .badop => acc ++ " ; BAD-OP"
+          | .error e => showAbort e
+          | .ok s' => go s' (acc ++ snapshot s') rest'
+      | [] => "BAD-OP token underrun"
   | name :: rest =>
     match (opP name) rest with
     | .error e => s!"BAD-OP {e}"
